@@ -370,7 +370,7 @@ UNIT = dict(
                 ("E8", r"(area_to_resize = Some\(i\);\s*)continue;", r"\1i += 1;\n                    continue;", 1),
                 ("E8", r"(\n        )\}(\n\n        if let Some\(i\) = area_to_resize \{)", r"\1    i += 1;\1}\2", 1),
                 ("E8", r"std::cmp::min\(", "min_usize(", None),
-                ("E8", r"new_data\[\.\.copy_len\]\.copy_from_slice\(&old_data\[\.\.copy_len\]\);", "vec_copy_into(&mut new_data, 0, &old_data[..copy_len]);", 1),
+                ("E8", r"new_data\[\.\.copy_len\]\.copy_from_slice\(&old_data\[\.\.copy_len\]\);", "vec_copy_into(&mut new_data, 0, &old_data[..copy_len]);", None),
                 ("E8", r"let mut area_to_resize = None;", "let mut area_to_resize: Option<usize> = None;", 1),
             ],
             annotations=[
